@@ -144,14 +144,14 @@ def run(ctx):
             continue
         okp = False
         why = ""
+        import seqmodel
         for d in decs:
             src = d.kids[0]
-            nx = vmodel.first_tilde_part(f, _tok_of_segment(src)) if _tok_of_segment(src) is not None else None
-            if nx is not None:
+            seg = seqmodel.elem_of(f, src)
+            if seg is not None and seqmodel.split_over(seg[0])[1] == "." and vmodel.first_tilde_part(f, seqmodel.split_over(seg[0])[0]) is not None:
                 # compact: the SECOND '.'-segment of the same first part
-                seg = _segment_index(f, src)
-                okp = (seg == 1)
-                why = "segment index %r of the first `~` part" % (seg,)
+                okp = (seg[1] == ("lo", 1))
+                why = "segment %r of the first `~` part" % (seg[1],)
             else:
                 n = peel(src)
                 if n.kind == "field" and n.d.get("adt") == "SDJWTJson" and n.d.get("name") == "payload":
